@@ -137,6 +137,18 @@ def body_chain(case):
     return labels
 
 
+import contextlib as _ctx
+
+
+@_ctx.contextmanager
+def quiet_units():
+    import warnings
+
+    with warnings.catch_warnings():
+        warnings.simplefilter("ignore")
+        yield
+
+
 def _check_decay(eas, beta, tauBeta, tauLorentz, u, layout=None):
     n = len(beta)
     snap = [a.tobytes() for a in (beta, tauBeta, tauLorentz, u)]
@@ -179,7 +191,7 @@ def _check_decay(eas, beta, tauBeta, tauLorentz, u, layout=None):
             require(np.array_equal(fin, np.isfinite(g)), f"float32 inputs give a non-finite decay {nm} where the same numbers as float64 give a finite one")
             bad = np.abs(g[fin] - w[fin]) > 1e-4 * np.abs(w[fin]) + 1e-30
             require(not bad.any(), f"float32 input arrays give decay {nm} {g[fin][bad][:3].tolist()}, the same numbers as float64 arrays {w[fin][bad][:3].tolist()} (beyond single-precision accuracy of the {nm})")
-    elif layout:
+    elif layout and layout != "units":
         forms = [as_layout(a, layout) for a in (beta, tauBeta, tauLorentz, u)]
         if forms[0] is not None:
             with cut(f"EAS.altDec({layout} inputs of shape {forms[0][0].shape})"):
@@ -190,6 +202,18 @@ def _check_decay(eas, beta, tauBeta, tauLorentz, u, layout=None):
                 same_values(back(altL), alt) and same_values(back(lenL), length),
                 f"{layout} inputs give other decay points than plain arrays of the same values: lengths {np.ravel(back(lenL))[:3].tolist()} instead of {length[:3].tolist()}",
             )
+    # the emergence angle handed over as an astropy Quantity (rad, deg, arcmin): honoured - same decay points as the plain
+    # radians - or refused; never read as a bare number
+    if layout == "units":
+        from ..strategies import unit_forms
+
+        for uname, q in unit_forms(beta, "rad", ["deg", "arcmin"]):
+            try:
+                with quiet_units():
+                    altQ, lenQ = [np.asarray(getattr(x, "value", x), dtype=np.float64) for x in eas.altDec(q, tauBeta, tauLorentz, u)]
+            except Exception:  # noqa: BLE001 - refusing a unit-carrying angle is fine
+                continue
+            require(same_values(altQ, alt, rtol=1e-12) and same_values(lenQ, length, rtol=1e-12), f"emergence angles given as an astropy Quantity in {uname} are neither honoured nor refused: decay altitudes {altQ[:3].tolist()} instead of {alt[:3].tolist()} (angles {np.degrees(beta[:3]).tolist()} deg)")
     # internal generator == explicit numbers
     c = float(u[0])
     with scripted(np.full(n + 4, c)):
@@ -362,7 +386,7 @@ SUBCHECKS = [
     ),
     SubCheck(
         "decay",
-        st.fixed_dictionaries({"events": st.lists(st.tuples(gamma_st, beta_em, u_dec).map(list), min_size=1, max_size=48), "layout": st.sampled_from([None] + LAYOUTS + ["float32", "float32"]), "preempt": st.one_of(st.just([]), st.lists(st.one_of(st.integers(0, 40), st.integers(0, 400)), min_size=1, max_size=3))}),
+        st.fixed_dictionaries({"events": st.lists(st.tuples(gamma_st, beta_em, u_dec).map(list), min_size=1, max_size=48), "layout": st.sampled_from([None] + LAYOUTS + ["float32", "float32", "units", "units"]), "preempt": st.one_of(st.just([]), st.lists(st.one_of(st.integers(0, 40), st.integers(0, 400)), min_size=1, max_size=3))}),
         body_decay,
         _nt,
         {"quick": 800, "thorough": 40000},
